@@ -74,7 +74,7 @@ func c04Gen(t *rapid.T) c04Case {
 		Kind:  rapid.SampledFrom([]string{"none", "payload", "payload", "sigbyte", "sigbyte", "keyid", "pubswap", "dropsig"}).Draw(t, "probe"),
 		A:     rapid.IntRange(0, 1<<16).Draw(t, "pa"),
 		B:     rapid.IntRange(0, 1<<16).Draw(t, "pb"),
-		Other: rapid.SampledFrom(hx.CheapPoolNames()).Draw(t, "other"),
+		Other: rapid.SampledFrom(append([]string{"ecdsa-p256-0", "ecdsa-p256-1", "ecdsa-p256-0", "ed25519-3"}, hx.CheapPoolNames()...)).Draw(t, "other"),
 	}
 	return c
 }
@@ -288,6 +288,15 @@ func c04Run(c c04Case, r *hx.Rec) error {
 				delete(e, "keyid")
 				r.Label("foreign-keyid-omitted")
 			}
+			if c.Probe.B%2 == 1 {
+				// DSSE allows the URL-safe base64 alphabet for the signature value
+				if sv, ok := e["sig"].(string); ok {
+					e["sig"] = strings.NewReplacer("+", "-", "/", "_").Replace(sv)
+					if e["sig"] != sv {
+						r.Label("foreign-urlsafe-sig")
+					}
+				}
+			}
 			_ = hx.WriteDSSEFile(fp, hx.InTotoPayloadType, payload, []map[string]any{e})
 		}
 		l, err := intoto.LoadMetadata(fp)
@@ -298,6 +307,37 @@ func c04Run(c c04Case, r *hx.Rec) error {
 			return fmt.Errorf("a standard %s signature made with crypto/* by %s is refused by the library: %v", c.Wrapper, k.Name, err)
 		}
 		r.Label("foreign-signed")
+		// co-signing what another implementation wrote: afterwards it verifies under both keys, also
+		// after a round trip (the first signature covers the bytes as they were written)
+		_, keyless := map[int]bool{1: true, 2: true}[c.Probe.A%3]
+		if !(keyless && c.Wrapper == "dsse") {
+			second := hx.PoolKey([]string{"ed25519-3", "ecdsa-p256-1"}[c.Probe.B%2])
+			if second.Name == k.Name {
+				second = hx.PoolKey("ed25519-2")
+			}
+			if err := l.Sign(second.Full()); err != nil {
+				return fmt.Errorf("co-signing a foreign %s file with %s failed: %v", c.Wrapper, second.Name, err)
+			}
+			for _, kk := range []*hx.TestKey{k, second} {
+				if err := l.VerifySignature(kk.Pub()); err != nil {
+					return fmt.Errorf("foreign %s file signed by %s, co-signed by %s with the library: verification under %s fails: %v", c.Wrapper, k.Name, second.Name, kk.Name, err)
+				}
+			}
+			cp, err := c04Dump(l, dir, "foreign-cosigned.json")
+			if err != nil {
+				return fmt.Errorf("Dump of the co-signed foreign file failed: %v", err)
+			}
+			l2, err := intoto.LoadMetadata(cp)
+			if err != nil {
+				return fmt.Errorf("the co-signed foreign file does not load back: %v", err)
+			}
+			for _, kk := range []*hx.TestKey{k, second} {
+				if err := l2.VerifySignature(kk.Pub()); err != nil {
+					return fmt.Errorf("co-signed foreign %s file after dump and load: verification under %s fails: %v", c.Wrapper, kk.Name, err)
+				}
+			}
+			r.Label("foreign-cosigned")
+		}
 	}
 
 	if c.Probe.Kind == "none" || len(model) == 0 {
